@@ -167,6 +167,20 @@ func (P *Prog) paramAliases(fn *ssa.Function) map[string]string {
 
 // addParamAliases makes the snapshot's names of renamed parameters/results available in env.
 func (s *Session) addParamAliases(env *Env, fn *ssa.Function) {
+	// a named result that lost its name (or was renamed): positional
+	if fn != nil && fn.Pkg != nil {
+		if snap := loadNameSnap()[s.P.fnName(fn)]; snap != nil && len(snap.Results) == fn.Signature.Results().Len() {
+			for i, old := range snap.Results {
+				if old == "" || old == "_" || i >= len(env.result) {
+					continue
+				}
+				if _, bound := env.vars[old]; !bound {
+					env.vars[old] = env.result[i]
+					s.note(fmt.Sprintf("contract of %s: identifier %q resolved to result #%d (names.json)", s.P.fnName(fn), old, i))
+				}
+			}
+		}
+	}
 	for old, cur := range s.P.paramAliases(fn) {
 		if _, clash := env.vars[old]; clash {
 			continue
